@@ -103,10 +103,13 @@ func TestVerifC18(t *testing.T) {
 		vCapMu.Lock()
 		vCapClient, vCapFail = nil, true
 		vCapMu.Unlock()
-		cc, err := vDialLib(context.Background(), "127.0.0.1:1", ckey, skey.Pub, opts...)
+		// the credentials option sits anywhere in the list: what the other options set must not depend on it
+		pos, signer := r.Intn(len(opts)+1), r.Intn(2) == 0
+		cc, err := vDialLibAt(context.Background(), "127.0.0.1:1", ckey, skey.Pub, pos, signer, opts...)
 		if err != nil {
 			t.Fatalf("dial: %v", err)
 		}
+		coq = append(append(append([]string{}, coq[:pos]...), "DOther"), coq[pos:]...)
 		vWaitUntil(2*time.Second, func() bool { vCapMu.Lock(); defer vCapMu.Unlock(); return len(vCapClient) > 0 })
 		closed := vClose(cc, 5*time.Second)
 		vCapMu.Lock()
@@ -150,7 +153,9 @@ func TestVerifC18(t *testing.T) {
 		vCapMu.Lock()
 		vCapServer = nil
 		vCapMu.Unlock()
-		ls := vStartLibServer(skey, []ed25519.PublicKey{ckey.Pub}, true, opts...)
+		pos := r.Intn(len(opts) + 1)
+		ls := vStartLibServerAt(skey, []ed25519.PublicKey{ckey.Pub}, true, pos, opts...)
+		coq = append(append(append([]string{}, coq[:pos]...), "SOther"), coq[pos:]...)
 		conn, err := vRawDial(ls.Addr, ckey, skey.Pub)
 		c := vCase{Class: "server-opts", Sig: "s/" + strings.Join(coq, ";"), Info: map[string]interface{}{"opts": coq}}
 		if err != nil {
